@@ -24,6 +24,9 @@ type SolveOpts struct {
 
 type SolverStats struct {
 	mu      sync.Mutex
+	Cross   map[string]int // thorough tier: answers of the other solvers on obligations z3-5.1.0 discharged
+	Disagree []string      // obligations one solver proved and another refuted (engine error)
+	SeedFragile []string   // thorough tier: discharged with the run's seed but not with seed+1 (first pass only)
 	ByBack  map[string]int
 	TimeS   float64
 	Queries int
@@ -327,6 +330,67 @@ func SolveGen(g *Gen, opts SolveOpts, stats *SolverStats) {
 			defer wg.Done()
 			defer func() { <-sem }()
 			raceOne(o, prefix, filepath.Join(dir, fmt.Sprintf("ob%03d.smt2", i)), opts, stats)
+		}(i, o)
+	}
+	wg.Wait()
+	if opts.Stability {
+		crossCheck(g, prefix, dir, opts, stats)
+	}
+}
+
+// crossCheck (thorough tier): every obligation discharged by z3-5.1.0 is also put to cvc5 and z3-4.8.12 (a "sat" from either
+// is a disagreement between solvers, reported as an engine error, never as a pass), and to z3-5.1.0 with another seed
+// (a query that is only proved under one seed is listed as fragile).
+func crossCheck(g *Gen, prefix, dir string, opts SolveOpts, stats *SolverStats) {
+	var wg sync.WaitGroup
+	for i, o := range g.Obls {
+		if o.Status != "proved" || o.Kind == "auto-init" || o.Kind == "auto-pres" {
+			continue
+		}
+		wg.Add(1)
+		go func(i int, o *Obligation) {
+			defer wg.Done()
+			d, qa := obligationQuery(o)
+			q := prefix + fmt.Sprintf("%s\n(assert %s)\n(check-sat)\n", d, qa)
+			f := filepath.Join(dir, fmt.Sprintf("x%04d.smt2", i))
+			fc := filepath.Join(dir, fmt.Sprintf("x%04d.cvc5.smt2", i))
+			os.WriteFile(f, []byte(q), 0o644)
+			os.WriteFile(fc, []byte("(set-logic ALL)\n"+q), 0o644)
+			defer os.Remove(f)
+			defer os.Remove(fc)
+			ask := func(solver, file string, seed int) string {
+				solverPool <- struct{}{}
+				defer func() { <-solverPool }()
+				out, _ := runCmd(time.Duration(opts.QuickMs+5000)*time.Millisecond, solverArgs(solver, file, opts.QuickMs, seed))
+				for _, ln := range strings.Split(out, "\n") {
+					ln = strings.TrimSpace(ln)
+					if ln == "sat" || ln == "unsat" || ln == "unknown" || ln == "timeout" {
+						return ln
+					}
+				}
+				return "unknown"
+			}
+			for _, sv := range []string{"cvc5-1.0.3", "z3-4.8.12"} {
+				file := f
+				if strings.HasPrefix(sv, "cvc5") {
+					file = fc
+				}
+				a := ask(sv, file, opts.Seed)
+				stats.mu.Lock()
+				if stats.Cross == nil {
+					stats.Cross = map[string]int{}
+				}
+				stats.Cross[sv+":"+a]++
+				if a == "sat" {
+					stats.Disagree = append(stats.Disagree, o.Name+" ("+o.Solver+" unsat, "+sv+" sat)")
+				}
+				stats.mu.Unlock()
+			}
+			if a := ask("z3-5.1.0", f, opts.Seed+1); a != "unsat" {
+				stats.mu.Lock()
+				stats.SeedFragile = append(stats.SeedFragile, o.Name)
+				stats.mu.Unlock()
+			}
 		}(i, o)
 	}
 	wg.Wait()
